@@ -19,6 +19,8 @@ RULE = (
     "and CRPIX of (file i, selected HDU, selected key); both sequences are in input order; export_simple() lists the same (path, hdu); for "
     "tiling entry points the markers found in the deepest tiles are exactly those of the selected HDUs. Non-trivial: >= 2 files or a "
     "non-default selection; distinct by spec."
+    ' Also: the same path listed twice, tile-compressed image HDUs, data cubes in three axis orders, a selection one past the end of th'
+    'e shortest file (an error is demanded), the collection re-used after being analysed for tiling.'
 )
 ASSUMPTIONS = ["marker values and CRPIX encodings make the loaded HDU / WCS solution unambiguous"]
 KEYS = [" ", "A", "B"]
